@@ -804,6 +804,223 @@ int main(void) {
 
 
 # ---------------------------------------------------------------------------
+# CAP: recorded capacities never exceed allocated sizes, over API histories
+
+SIZED_ALLOC = r"""
+/* allocator that remembers the size of every live block, so that the harness
+ * can compare what the scanner BELIEVES a block holds with what it asked for */
+#define VP_MAXBLK 24
+static void *vp_blk[VP_MAXBLK]; static size_t vp_blksz[VP_MAXBLK];
+static int vp_live, vp_bad_free;
+static void vp_note(void *p, size_t n) {
+  for (int i = 0; i < VP_MAXBLK; i++) if (vp_blk[i] == 0) { vp_blk[i] = p; vp_blksz[i] = n; return; }
+  VP_ASSUME(0);                       /* more live blocks than the table holds: outside the bound */
+}
+static int vp_forget(void *p) {
+  for (int i = 0; i < VP_MAXBLK; i++) if (vp_blk[i] == p) { vp_blk[i] = 0; return 1; }
+  return 0;
+}
+static size_t vp_size_of(const void *p) {
+  for (int i = 0; i < VP_MAXBLK; i++) if (vp_blk[i] == p) return vp_blksz[i];
+  VP_ASSERT(0, "a pointer held by the scanner is a live block obtained from yyalloc/yyrealloc");
+  return 0;
+}
+void *yyalloc(VP_SIZE_T n VP_ALLOC_EXTRA) { void *p = malloc(n); VP_ASSUME(p != 0); vp_note(p, n); vp_live++; return p; }
+void *yyrealloc(void *q, VP_SIZE_T n VP_ALLOC_EXTRA) {
+  if (q != 0 && !vp_forget(q)) vp_bad_free++;
+  void *p = realloc(q, n); VP_ASSUME(p != 0); vp_note(p, n); if (q == 0) vp_live++; return p;
+}
+void yyfree(void *p VP_ALLOC_EXTRA) { if (p == 0) return; if (!vp_forget(p)) vp_bad_free++; else vp_live--; free(p); }
+"""
+
+
+def cap_harness(g, cfg, spec, op=0, witness=False):
+    """Inductive step for the capacity invariant.  Pre-state: either a fresh
+    scanner, or (white box) a buffer stack of two FILE buffers with SYMBOLIC
+    recorded sizes, a REJECT state stack with symbolic recorded capacity, and
+    a ledger of symbolic allocated sizes, constrained only by the invariant
+       ledger(ch_buf) >= yy_buf_size + 2                 for every buffer,
+       ledger(state_buf) >= state_buf_max * sizeof(state),
+       state_buf == NULL or state_buf_max >= yy_buf_size + EXTRA   for the current buffer.
+    One API call (per query) with symbolic arguments; the invariant must hold
+    afterwards.  Storage behind every block is a fixed large object, so sizes
+    stay plain integers for the solver."""
+    pre = ('#define YY_BUF_SIZE 8   /* user-overridable default buffer size: keeps every block of the bound small */\n'
+           'static int vp_read(char *buf, int max_size);\n'
+           '#define YY_INPUT(buf, result, max_size) do { (result) = vp_read((buf), (int)(max_size)); } while (0)')
+    h = common_head(g, cfg, spec, 1)
+    marker = '#include "%s"' % os.path.basename(g.cpath)
+    h = h.replace(marker, pre + '\n' + marker)
+    h = h.replace(ALLOC, r"""
+/* ledger allocator: every block is backed by VP_BIG bytes; the REQUESTED size
+ * (possibly symbolic) is what the ledger records and what the invariant uses */
+#define VP_BIG 256
+#define VP_MAXBLK 12
+static void *vp_blk[VP_MAXBLK]; static size_t vp_blksz[VP_MAXBLK];
+static int vp_bad_free, vp_allocs;
+static void vp_note(void *p, size_t n) {
+  for (int i = 0; i < VP_MAXBLK; i++) if (vp_blk[i] == 0) { vp_blk[i] = p; vp_blksz[i] = n; return; }
+  VP_ASSUME(0);
+}
+static int vp_forget(void *p) { for (int i = 0; i < VP_MAXBLK; i++) if (vp_blk[i] == p) { vp_blk[i] = 0; return 1; } return 0; }
+static int vp_known(const void *p) { for (int i = 0; i < VP_MAXBLK; i++) if (vp_blk[i] == p) return 1; return 0; }
+static size_t vp_size_of(const void *p) { for (int i = 0; i < VP_MAXBLK; i++) if (vp_blk[i] == p) return vp_blksz[i]; return 0; }
+void *yyalloc(VP_SIZE_T n VP_ALLOC_EXTRA) { VP_ASSUME(n <= VP_BIG); void *p = malloc(VP_BIG); VP_ASSUME(p != 0); vp_note(p, n); vp_allocs++; return p; }
+void *yyrealloc(void *q, VP_SIZE_T n VP_ALLOC_EXTRA) {
+  VP_ASSUME(n <= VP_BIG);
+  if (q == 0) { void *p = malloc(VP_BIG); VP_ASSUME(p != 0); vp_note(p, n); vp_allocs++; return p; }
+  if (!vp_forget(q)) vp_bad_free++;
+  vp_note(q, n);                      /* grown in place */
+  return q;
+}
+void yyfree(void *p VP_ALLOC_EXTRA) { if (p == 0) return; if (!vp_forget(p)) vp_bad_free++; }
+""")
+    H = [h]
+    H.append('#define VP_OP %d' % op)
+    H.append('#define VP_NONREENTRANT %d' % (1 if cfg.api == 'nr' else 0))
+    H.append('#define VP_REJECT %d' % (1 if has_name(g, 'yy_state_buf_max') else 0))
+    if witness:
+        H.append('#define VP_WITNESS 1')
+    H.append(r"""
+#define VP_MAXSIZE 40
+int vp_rej_req;                  /* actions REJECT only if this is set (never): flex emits the REJECT machinery */
+int vpi_fresh, vpi_depth, vpi_sz0, vpi_sz1, vpi_sznew, vpi_l0, vpi_l1, vpi_lnew, vpi_smax, vpi_lstate;
+static int vp_fake_file;
+#ifndef REPLAY
+int isatty(int fd) { return 0; }
+int fileno(FILE *f) { return 0; }
+#define VP_FILE ((FILE *)&vp_fake_file)
+#else
+#define VP_FILE stdin
+#endif
+static int vp_read(char *buf, int max_size) { return 0; }
+static struct yy_buffer_state vp_b0, vp_b1, vp_bn;
+static yybuffer vp_stack[4];
+static char vp_c0[VP_BIG], vp_c1[VP_BIG], vp_cn[VP_BIG];
+#if VP_REJECT
+static yy_state_type vp_states[VP_BIG / sizeof(yy_state_type)];
+#endif
+
+static void vp_mkbuf(yybuffer b, char *mem, int size, int ledger) {
+  b->yy_input_file = VP_FILE; b->yy_ch_buf = mem; b->yy_buf_pos = mem; b->yy_buf_size = size; b->yy_n_chars = 0;
+  b->yy_is_our_buffer = 1; b->yy_fill_buffer = 1; b->yy_buffer_status = YY_BUFFER_NEW; b->yyatbol = 1;
+  mem[0] = 0; mem[1] = 0;
+  vp_note(mem, (size_t)ledger); vp_note(b, sizeof(struct yy_buffer_state));
+}
+
+static void vp_check_caps(VP_CAPS_PARAMS) {
+  VP_CAPS_PROLOGUE
+  VP_ASSERT(vp_bad_free == 0, "every pointer given to yyfree/yyrealloc came from yyalloc/yyrealloc and was live");
+  if (VP_G(yy_buffer_stack) != 0) {
+    VP_ASSERT(vp_known(VP_G(yy_buffer_stack)), "buffer stack is a live block");
+    VP_ASSERT(vp_size_of(VP_G(yy_buffer_stack)) >= VP_G(yy_buffer_stack_max) * sizeof(yybuffer), "buffer stack: recorded capacity is covered by the allocated block");
+    VP_ASSERT(VP_G(yy_buffer_stack_top) < VP_G(yy_buffer_stack_max), "buffer stack: top inside the stack");
+    for (int i = 0; i < 4; i++) if ((size_t)i <= VP_G(yy_buffer_stack_top)) {
+      yybuffer b = VP_G(yy_buffer_stack)[i];
+      if (b == 0) continue;
+      VP_ASSERT(vp_known(b) && vp_known(b->yy_ch_buf), "buffers on the stack are live blocks");
+      VP_ASSERT(b->yy_buf_size >= 1, "buffer size is positive");
+      VP_ASSERT(vp_size_of(b->yy_ch_buf) >= (size_t)b->yy_buf_size + 2, "character buffer: recorded size plus the two end-of-buffer characters is covered by the allocated block");
+#if VP_REJECT
+      /* yylex() allocates the state stack only when there is none; whenever one exists it must hold one state per
+       * character of a token that fills the CURRENT buffer (REJECT scanners never grow the buffer) */
+      if (i == (int)VP_G(yy_buffer_stack_top))
+        VP_ASSERT(VP_G(yy_state_buf) == 0 || VP_G(yy_state_buf_max) >= (size_t)b->yy_buf_size + YY_STATE_BUF_EXTRA_SPACE, "REJECT state stack holds a token that fills the current buffer");
+#endif
+    }
+  }
+#if VP_REJECT
+  if (VP_G(yy_state_buf) != 0) {
+    VP_ASSERT(vp_known(VP_G(yy_state_buf)), "REJECT state stack is a live block");
+    VP_ASSERT(vp_size_of(VP_G(yy_state_buf)) >= VP_G(yy_state_buf_max) * sizeof(yy_state_type), "REJECT state stack: recorded capacity is covered by the allocated block");
+  } else
+    VP_ASSERT(VP_G(yy_state_buf_max) == 0, "REJECT state stack: no block, no capacity");
+#endif
+}
+
+int main(void) {
+  VP_DECL_SCANNER
+#ifdef REPLAY
+#include "vp_replay_set.inc"
+#else
+  vpi_fresh = nondet_int(); vpi_depth = nondet_int(); vpi_sz0 = nondet_int(); vpi_sz1 = nondet_int(); vpi_sznew = nondet_int();
+  vpi_l0 = nondet_int(); vpi_l1 = nondet_int(); vpi_lnew = nondet_int(); vpi_smax = nondet_int(); vpi_lstate = nondet_int();
+#endif
+  VP_ASSUME(vpi_fresh == 0 || vpi_fresh == 1);
+  VP_ASSUME(vpi_depth == 1 || vpi_depth == 2);
+  VP_ASSUME(vpi_sz0 >= 1 && vpi_sz0 <= VP_MAXSIZE && vpi_sz1 >= 1 && vpi_sz1 <= VP_MAXSIZE && vpi_sznew >= 1 && vpi_sznew <= VP_MAXSIZE);
+  /* invariant on the pre-state */
+  VP_ASSUME(vpi_l0 >= vpi_sz0 + 2 && vpi_l0 <= VP_BIG && vpi_l1 >= vpi_sz1 + 2 && vpi_l1 <= VP_BIG && vpi_lnew >= vpi_sznew + 2 && vpi_lnew <= VP_BIG);
+  vp_expect_fatal = 0;
+  VP_INIT_SCANNER();
+  yyin = VP_FILE; yyout = VP_FILE;
+  if (!vpi_fresh) {
+    vp_mkbuf(&vp_b0, vp_c0, vpi_sz0, vpi_l0);
+    vp_stack[0] = &vp_b0;
+    if (vpi_depth == 2) { vp_mkbuf(&vp_b1, vp_c1, vpi_sz1, vpi_l1); vp_stack[1] = &vp_b1; }
+    vp_note(vp_stack, sizeof vp_stack);
+    VP_G(yy_buffer_stack) = vp_stack; VP_G(yy_buffer_stack_top) = vpi_depth - 1; VP_G(yy_buffer_stack_max) = 4;
+    VP_G(yy_init) = 1;
+    { yybuffer cb = vp_stack[vpi_depth - 1];
+      VP_G(yy_n_chars) = 0; VP_G(yy_c_buf_p) = cb->yy_ch_buf; VP_TEXTPTR = cb->yy_ch_buf; VP_G(yy_hold_char) = 0; }
+#if VP_REJECT
+    /* the state stack exists (yylex ran) or not yet (only buffer calls so far) */
+    VP_ASSUME(vpi_smax >= 0 && vpi_smax <= VP_MAXSIZE + YY_STATE_BUF_EXTRA_SPACE);
+    if (vpi_smax > 0) {
+      VP_ASSUME(vpi_smax >= (vpi_depth == 2 ? vpi_sz1 : vpi_sz0) + YY_STATE_BUF_EXTRA_SPACE);   /* covers the current buffer; buffers below may be larger */
+      VP_ASSUME(vpi_lstate >= 0 && (size_t)vpi_lstate >= (size_t)vpi_smax * sizeof(yy_state_type) && (size_t)vpi_lstate <= sizeof vp_states);
+      VP_G(yy_state_buf) = vp_states; VP_G(yy_state_buf_max) = (size_t)vpi_smax; VP_G(yy_state_ptr) = vp_states;
+      vp_note(vp_states, (size_t)vpi_lstate);
+    }
+#endif
+  }
+  vp_check_caps(VP_CAPS_ARGS);          /* the constructed pre-state satisfies the invariant */
+  int allocs0 = vp_allocs;
+#if VP_OP == 0
+  yyrestart(VP_FILE VP_A1);
+#elif VP_OP == 1
+  vp_mkbuf(&vp_bn, vp_cn, vpi_sznew, vpi_lnew);
+  yy_switch_to_buffer(&vp_bn VP_A1);
+#elif VP_OP == 2
+  vp_mkbuf(&vp_bn, vp_cn, vpi_sznew, vpi_lnew);
+  yypush_buffer_state(&vp_bn VP_A1);
+#elif VP_OP == 3
+  yypop_buffer_state(VP_A0);
+#elif VP_OP == 4
+  { yybuffer nb = yy_create_buffer(VP_FILE, vpi_sznew VP_A1);
+    VP_ASSERT(nb != 0, "yy_create_buffer");
+    VP_ASSERT(nb->yy_buf_size == vpi_sznew, "yy_create_buffer records the requested size");
+    VP_ASSERT(vp_size_of(nb->yy_ch_buf) >= (size_t)nb->yy_buf_size + 2, "yy_create_buffer allocates the size plus the two end-of-buffer characters");
+    yy_switch_to_buffer(nb VP_A1); }
+#elif VP_OP == 5
+  { int t = VP_LEX(); VP_ASSERT(t == 0, "empty source: end of input"); }
+#elif VP_OP == 6
+  yylex_destroy();
+  yyrestart(VP_FILE);
+#endif
+  vp_check_caps(VP_CAPS_ARGS);
+#ifdef VP_WITNESS
+#if VP_OP == 0 || VP_OP == 5 || VP_OP == 6
+  VP_ASSERT(!(vp_allocs > allocs0), "WITNESS: the call allocates");
+#elif VP_OP == 3
+  VP_ASSERT(!(vpi_depth == 2 && !vpi_fresh), "WITNESS: pop returns to the buffer below");
+#else
+  VP_ASSERT(!(!vpi_fresh && vpi_sznew > vpi_sz0 + 10), "WITNESS: a much larger buffer becomes current");
+#endif
+#endif
+  return 0;
+}
+""")
+    txt = '\n'.join(H)
+    if cfg.api == 'nr':
+        txt = txt.replace('VP_CAPS_PARAMS', 'void').replace('VP_CAPS_PROLOGUE', '').replace('VP_CAPS_ARGS', '')
+    else:
+        txt = txt.replace('VP_CAPS_PARAMS', 'yyscan_t vp_scanner').replace(
+            'VP_CAPS_PROLOGUE', 'struct yyguts_t *yyg = (struct yyguts_t *)vp_scanner; yyscan_t yyscanner = vp_scanner; (void)yyscanner;').replace('VP_CAPS_ARGS', 'vp_scanner')
+    return txt
+
+
+# ---------------------------------------------------------------------------
 # G2: yyinput() / yyunput() as units, from an arbitrary valid in-action state
 
 def g2_harness(g, cfg, spec, cap, m, nops=1, witness=False):
